@@ -3,6 +3,7 @@ package props
 import (
 	"math/rand"
 	"strings"
+	"sync/atomic"
 	"time"
 
 	"verif/core"
@@ -52,8 +53,16 @@ func c19Gen(r *rand.Rand) string {
 	return s
 }
 
+// hangs already confirmed in this run: after three, further watchdog hits are reported without the long confirming
+// re-run, and once three are reported the rest of the run is cut short
+var c19Hangs, c19Reported int32
+
 func c19Check(env *core.Env, cc core.Case) core.Verdict {
 	c := cc.(*c19Case)
+	if atomic.LoadInt32(&c19Hangs) >= 3 && atomic.LoadInt32(&c19Reported) >= 3 {
+		// three hangs are confirmed and reported: the verdict of the run is settled, do not spend 20 s on every further input
+		return core.Verdict{Status: core.Skipped, Msg: "run cut short after three confirmed hangs"}
+	}
 	root := emptyRoot(env)
 	defer rmCase(root)
 	v := core.Verdict{Status: core.Held, Nontrivial: true, Features: []string{"via:" + c.Via}, Counts: map[string]int{}}
@@ -103,10 +112,22 @@ func c19Check(env *core.Env, cc core.Case) core.Verdict {
 			r := sut.Run(sut.Cmd{Bin: bin, Args: args, Stdin: in.stdin, Dir: root, Timeout: 20 * time.Second})
 			v.Counts["executions"]++
 			if r.Class() == sut.ClassTimeout {
-				// run it once more with a generous limit before calling it a hang
+				if atomic.LoadInt32(&c19Hangs) >= 3 {
+					atomic.AddInt32(&c19Reported, 1)
+					x := core.Viol("hang", "%v does not terminate within 20 s (three hangs were already confirmed in this run)\ninput=%s", in.args, core.Q(c.Input))
+					x.SelfConfirmed = true
+					return x
+				}
+				// run it once more with a generous limit before calling it a hang; the verdict uses the CPU time the
+				// process consumed (normal inputs need a few hundredths of a second), which does not depend on machine load
 				r = sut.Run(sut.Cmd{Bin: bin, Args: args, Stdin: in.stdin, Dir: root, Timeout: 120 * time.Second})
-				if r.Class() == sut.ClassTimeout {
-					return core.Viol("hang", "%v does not terminate within 120 s\ninput=%s\nstderr-tail=%s", in.args, core.Q(c.Input), core.Q(tail(r.Stderr, 12)))
+				if r.Class() == sut.ClassTimeout || r.CPU > 10*time.Second {
+					atomic.AddInt32(&c19Hangs, 1)
+					atomic.AddInt32(&c19Reported, 1)
+					x := core.Viol("hang", "%v does not terminate promptly: watchdog hit after 20 s, and the confirming run %s after consuming %.0f s of CPU time\ninput=%s\nstderr-tail=%s", in.args,
+						map[bool]string{true: "was killed after 120 s", false: "ended"}[r.Class() == sut.ClassTimeout], r.CPU.Seconds(), core.Q(c.Input), core.Q(tail(r.Stderr, 12)))
+					x.SelfConfirmed = true
+					return x
 				}
 				v.Counts["slow_but_terminated"]++
 			}
